@@ -14,6 +14,8 @@ Decided:
 Not decided: that integrating the gyroscopes reproduces the trajectory (numerical), the random trajectory generator.
 Added after the seeding rounds (DESIGN.md 6.6-6.8):
  GROUND-TRUTH.dt / .yaw / .align and the same-source rule: time step 1/frequency, yaw in degrees converted with DEG2RAD, the N-1 rates follow one leading row.
+Added after seeding rounds 5 and 6 and refactoring round 4 (DESIGN.md 6.10-6.12):
+ GROUND-TRUTH.angles by interpretation; ANGVEL / ANGVEL.gate shared with C08.
 """
 import ast
 import numpy as np
